@@ -8,7 +8,7 @@ model = {
   "partials":     [(name, [sample indices (<= 4)])],
   "samples":      [dict(name=, words=bytes, chain=[clusters] or None, cluster_top=0, mode=0..6, start=, sustain_start=, sustain_end=,
                         release_start=, release_end=, freq_code=0..5, fine=[5 bytes], tunes=(enable, sustain, release),
-                        sample_mode=0|1, key=midi byte)],
+                        sample_mode=0|1, key=midi byte, share_with=index of an earlier sample whose chain this one lives in)],
   "fat_version":  1 | 2,
 }
 """
@@ -41,6 +41,9 @@ def build(model):
     fat[FAT_N - 1] = 0xffff
     placed = []
     for s in samples:
+        if "share_with" in s:                      # a second sample inside another sample's chain (same FAT head, its own cluster_top)
+            placed.append(placed[s["share_with"]])
+            continue
         nbytes = len(s["words"])
         top = s.get("cluster_top", 0)
         k = max(1, -(-nbytes // CL)) + top
@@ -127,6 +130,8 @@ def build(model):
         rec[45] = s.get("key", 60)
         img[o:o + sz] = rec
         data = s["words"]
+        if "share_with" in s:
+            continue                               # its audio is what the owner of the chain stored in clusters [top:]
         for j, c in enumerate(chain[top:]):
             piece = data[j * CL:(j + 1) * CL]
             img[DATA0 + c * CL:DATA0 + c * CL + len(piece)] = piece
